@@ -28,3 +28,37 @@ Proof.
   specialize (H d17 st0 (s "a") E). vm_compute in E. injection E as <-. vm_compute in H. specialize (H eq_refl). discriminate.
 Qed.
 Print Assumptions C14_coherent_full_refuted.
+
+(* ---- the mapping API refines an association list, over whole histories ----
+   abs reads (name, value) pairs off the top-level set; a_get / a_set / a_del are the three-line specification
+   (first binding of that name; replace it or append; remove it or KeyError).  For every state satisfying the
+   invariant map_inv (evaluated as map_invb on the parsed state of every correspondence case) and EVERY sequence of
+   lookups, assignments and deletions, the implementation model returns what the specification returns and ends in a
+   state whose abstraction is the specification's final map. *)
+From E Require Import EditMapSpec.
+Theorem C14_refines_assoc_list : forall ops s, map_inv s ->
+  map_inv (fst (crun s ops)) /\ abs (fst (crun s ops)) = fst (arun (abs s) ops) /\ snd (crun s ops) = snd (arun (abs s) ops).
+Proof. exact EditMapSpec.run_refines. Qed.
+Print Assumptions C14_refines_assoc_list.
+
+(* deletion laws *)
+Theorem C14_get_other_after_del : forall s k k', streq k' k = false ->
+  getitem (fst (set_delitem s SRoot k)) SRoot k' = getitem s SRoot k'.
+Proof. exact EditMapSpec.get_other_after_del. Qed.
+Print Assumptions C14_get_other_after_del.
+Theorem C14_get_after_del : forall s k, uniq_names (abs s) -> snd (set_delitem s SRoot k) = Ok tt ->
+  getitem (fst (set_delitem s SRoot k)) SRoot k = None.
+Proof. exact EditMapSpec.get_after_del. Qed.
+Print Assumptions C14_get_after_del.
+(* a missing key is a KeyError and changes nothing; a present key can always be deleted *)
+Theorem C14_del_missing : forall s k, getitem s SRoot k = None -> set_delitem s SRoot k = (s, Err KeyErr).
+Proof. exact EditMapSpec.del_missing. Qed.
+Print Assumptions C14_del_missing.
+Theorem C14_del_present : forall s k v, getitem s SRoot k = Some v -> snd (set_delitem s SRoot k) = Ok tt.
+Proof. exact EditMapSpec.del_present. Qed.
+Print Assumptions C14_del_present.
+(* non-vacuity: the parsed state of the F-17 document satisfies the invariant and has unique names *)
+Example C14_inv_nonvacuous :
+  match parse_doc d17 with Ok st0 => map_invb st0 = true /\ uniq_names (abs st0) | Err _ => False end.
+Proof. vm_compute. split; [reflexivity|]. repeat constructor; cbn; intuition discriminate. Qed.
+Print Assumptions C14_inv_nonvacuous.
